@@ -98,7 +98,8 @@ class NetSim(BaseEngine):
                 'start_time': pick(rng, (0.0, 100.0, 1.7e9)),
                 'host': pick(rng, HOSTS), 'port': pick(rng, PORTS + (rng.randint(1, 65535),)),
                 'epipe_after': rng.randrange(2), 'first_fd': pick(rng, (10, 10, 10, 3, 0)),
-                'autoreset': rng.random() < 0.15}
+                'autoreset': rng.random() < 0.15,
+                'rst_keep': rng.random() < 0.5}
         if scn == 1:
             types = pick(rng, (model.ALL_TYPES, model.NON_RT_TYPES, ('sysex', 'note_on', 'clock'),
                                model.CHANNEL_TYPES))
@@ -396,6 +397,16 @@ class NetSim(BaseEngine):
                         clock.now = max(clock.now + adv, nxt)
                 if len(got) > 500:
                     raise Violation(f'unbounded@{tag}', 'more than 500 messages')
+        if consumer in ('iter', 'iter_break') and ended == 'stop':
+            # the loop ended normally: everything the port had taken in must have come out of it
+            try:
+                rest = list(port.iter_pending())
+            except Exception:
+                rest = []
+            if rest:
+                raise Violation(f'iteration-stopped-early@{tag}', f'the for-loop over the port ended without an exception '
+                                                                  f'while {len(rest)} message(s) it had taken in were '
+                                                                  f'still queued: {rest!r}')
         return got, ended
 
     # ------------------------------------------------------------------ scenario 1
@@ -502,7 +513,7 @@ class NetSim(BaseEngine):
         gone = bool(plan.get('autoreset'))
         if rst:
             def do_rst():
-                net.reset(pipe)
+                net.reset(pipe, keep_delivered=bool(plan.get('rst_keep')))
                 if gone:
                     raw.really_closed = True
             net.at(t, do_rst)
@@ -735,7 +746,7 @@ class NetSim(BaseEngine):
                 def fin(state=state, reset=cl.get('reset', False)):
                     p = state['raw'].tx
                     if reset:
-                        net.reset(p)            # connection reset: whatever was not read yet is gone
+                        net.reset(p, keep_delivered=bool(plan.get('rst_keep')))     # in flight: gone; delivered: gone or readable first
                     else:
                         p.fin_sent = True
                         net.deliver(p)
